@@ -22,6 +22,10 @@ use std::time::Duration;
 pub struct SvcCfg {
     pub timeout_ns: u64,
     pub mem_limit: u64,
+    /// Simulated time the child needs to start (rink's real child loads its
+    /// database here).
+    #[serde(default)]
+    pub startup_ns: u64,
 }
 
 #[derive(Serialize, Deserialize, Debug)]
@@ -80,6 +84,9 @@ impl Service for TestSvc {
     fn create(config: SvcCfg) -> Result<Self, std::io::Error> {
         // As cli/src/service.rs does: the limit arrives with the handshake.
         child_alloc().set_limit(config.mem_limit as usize);
+        if config.startup_ns > 0 {
+            simkit::shim::child::sleep(Duration::from_nanos(config.startup_ns));
+        }
         Ok(TestSvc { cfg: config })
     }
 
@@ -205,6 +212,9 @@ pub struct Knobs {
     pub short_io_pct: u64,
     /// kill() of an exited child reports InvalidInput: probability in percent.
     pub kill_dead_err_pct: u64,
+    /// Simulated start-up time of every child process.
+    #[serde(default)]
+    pub startup_ns: u64,
     pub extra: Vec<Extra>,
 }
 
@@ -218,6 +228,7 @@ impl Knobs {
             policy_seed: 0,
             short_io_pct: 0,
             kill_dead_err_pct: 0,
+            startup_ns: 0,
             extra: Vec::new(),
         }
     }
@@ -442,7 +453,7 @@ fn oracle(sc: &Scenario, recs: &[Record], raises: &[Vec<usize>], end: &RunEnd) -
         // deadline, so only a reply that takes several times the limit is flagged
         // (a request that never completes is caught as deadlock / step cap).
         if let Some(done) = rec.done_ns {
-            if done.saturating_sub(rec.issued_ns) > 3 * knobs.timeout_ns + eps {
+            if done.saturating_sub(rec.issued_ns) > 3 * knobs.timeout_ns + 2 * knobs.startup_ns + eps {
                 return Some(Violation {
                     clause: "late-reply".into(),
                     detail: format!(
@@ -578,6 +589,8 @@ impl Harness for C18 {
         knobs.policy_seed = rng.next_u64();
         knobs.short_io_pct = *rng.pick(&[0, 0, 10, 50]);
         knobs.kill_dead_err_pct = *rng.pick(&[0, 50]);
+        // A restarted child is not ready at once: requests issued meanwhile wait.
+        knobs.startup_ns = *rng.pick(&[0, 0, 1_000_000, 200_000_000, timeout_ns / 2, timeout_ns * 2]);
         let mut weights = [4u64, 2, 2, 1, 1, 1];
         for w in weights.iter_mut() {
             if rng.chance(1, 4) {
@@ -681,6 +694,7 @@ impl Harness for C18 {
             let svc_cfg = SvcCfg {
                 timeout_ns: sc2.knobs.timeout_ns,
                 mem_limit: sc2.knobs.mem_limit,
+                startup_ns: sc2.knobs.startup_ns,
             };
             let sandbox = match Sandbox::<TestSvc>::new(svc_cfg).await {
                 Ok(s) => s,
@@ -898,6 +912,11 @@ impl Harness for C18 {
         if sc.knobs.policy != d.policy {
             let mut c = sc.clone();
             c.knobs.policy = d.policy;
+            out.push(c);
+        }
+        if sc.knobs.startup_ns != 0 {
+            let mut c = sc.clone();
+            c.knobs.startup_ns = 0;
             out.push(c);
         }
         if sc.knobs.mem_limit != d.mem_limit {
